@@ -89,6 +89,7 @@ decreases self.scopes@.len() - verif_j,"""),
         Rule("R1", "scope_contains ( scope , dependency ) . cloned ( )", "opt_cloned ( scope_contains ( scope , dependency ) )", why="Option<&Ident>::cloned"),
     ], log, "has_name_been_mapped_in_function")
     check_closed(bl2, "has_name_been_mapped_in_function")
+    helpers = pure_helpers(src, SCOPE, "impl Scope", {"is_loop", "is_function", "ty_ref"}, log)
     for t, w in ((b, "scopes_since_loop"), (b_loop, "is_loop"), (b_fn, "is_function")):
         check_closed(t, w)
     gen = header(log, f"{FILE}: AssocFileData::scopes_since_loop; {SCOPE}: Scope::is_loop, Scope::is_function") + SPEC + f"""
@@ -107,6 +108,7 @@ impl Scope {{
     {{
 {render(f_ty["body"], 2)}
     }}
+{helpers}
 }}
 // the scope stack as the sequence `ScopeStack::iter()` yields it: innermost scope first
 pub struct AssocFileData {{ pub scopes: Vec<Scope> }}
